@@ -44,3 +44,10 @@ package lintutil
 //@   assigns nothing
 //@   sets $scanned(payload(root)) := true
 //@   sets $scanFound(payload(root)) := result
+
+// ---- C07 / C09: a synthesized zero-value expression is complete - printing a call with a nil argument makes fmt recover
+// a panic into the message text
+//@ func ZeroValueOf
+//@   prop C07 C09
+//@   nosafety the type is a non-nil types.Type taken from the type checker
+//@   ensures @no-nil-inside-the-synthesized-expression typeIs(result, "*ast.CallExpr") ==> (len(cast(result, "*ast.CallExpr").Args) == 1 && !isNilIface(cast(result, "*ast.CallExpr").Args[0]))
